@@ -3,6 +3,7 @@ from pyvc.spec import Assumed, Contract, Loop, Raises, register
 from .exit_codes import MAIN, SCHEME, SYSERR
 
 FSH = "pymarkdown/file_scan_helper.py::FileScanHelper."
+MONO = "self.__plugins.number_of_scan_failures >= old(self.__plugins.number_of_scan_failures)"
 
 # The Callable field FileScanHelper.__handle_error is bound to PyMarkdownLint.__handle_error at the only
 # construction site in pymarkdown/ (main.py, __scan_files_if_no_errors); checked by the structural obligation
@@ -27,19 +28,15 @@ register(Contract(
     key=FSH + "__scan_specific_file", properties=["C15", "C18"],
     requires=[f"scheme_ok({SCHEME})", "not g_done"],
     ghost={"g_done": "bool"},  # set by the normal return of __scan_file: "the file was scanned to completion"
-    ensures=["result == g_done"],
+    ensures=["result == g_done", MONO],
+    xensures={"BaseException": [MONO]},
     raises=[Raises("SystemExit", code=SYSERR),
             Raises("BadTokenizationError", when="not self.__continue_on_error"),
             Raises("OSError"), Raises("UnicodeError")],
-    modifies=["*"],
+    modifies=["*", "number_of_scan_failures"],
     calls={"self.__scan_file": (FSH + "__scan_file", ["g_done = True"])},
 ))
 
-register(Contract(
-    key=FSH + "__scan_file", properties=["C15", "C07", "C14"],
-    raises=[Raises("BadPluginError"), Raises("BadTokenizationError")],
-    modifies=["*"],
-))
 
 # ---------------------------------------------------------------------------------------------------------
 # C14: life-cycle at engine level.  Ghost `calls`: one event per dispatcher call made by FileScanHelper,
@@ -133,4 +130,125 @@ register(Contract(
     key=PM + "compile_pragmas", properties=["C11"],
     raises=[],
     modifies=["self.__document_pragmas.$dict", "self.__document_pragma_ranges.$list", "number_of_pragma_failures"],
+))
+
+# ---------------------------------------------------------------------------------------------------------
+# C15 / C10 / C18: per-file outcomes are accumulated truthfully.
+# Ghost g_succ / g_fix: one entry per processed file: did_succeed / did_fix_file as returned by the per-file
+# function (call-site instrumentation); g_announced: files announced as "Fixed:" (assumed print_fix_message).
+FILES = "files_to_scan"
+register(Contract(
+    key=FSH + "process_files_to_scan", properties=["C15", "C10", "C18"],
+    # g_succ / g_fix: per processed file, did_succeed / did_fix_file as returned by the per-file function;
+    # g_fixflag: file name -> did_fix_file;  g_announced: names printed as "Fixed: <name>"
+    # g_nfail / g_nfix: how many of the processed files failed / were fixed
+    ghost={"g_succ": "List[bool]", "g_fix": "List[bool]", "g_fixflag": "Dict[str, bool]", "g_announced": "Set[str]", "g_stdin_ok": "bool",
+           "g_nfail": "int", "g_nfix": "int"},
+    requires=[f"scheme_ok({SCHEME})", "is_empty(g_succ) and is_empty(g_fix) and is_empty(g_announced) and is_empty(g_fixflag)",
+              "not g_stdin_ok", "g_nfail == 0 and g_nfix == 0", "implies(use_standard_in, args.primary_subparser != 'fix')",
+              # C19 delivers a duplicate-free list (sorted(set(...)))
+              f"forall(lambda a, b: implies(a < b, {FILES}[a] != {FILES}[b]), 0, len({FILES}))"],
+    types={"args": "Namespace"},
+    calls={
+        "self.__scan_specific_file": (FSH + "__scan_specific_file", ["g_succ.append(result)", "g_fix.append(False)", "g_nfail = g_nfail + (0 if result else 1)"]),
+        "self.__fix_specific_file": (FSH + "__fix_specific_file", ["g_succ.append(result[1])", "g_fix.append(result[0])", "g_fixflag[next_file] = result[0]",
+                                                                   "g_nfail = g_nfail + (0 if result[1] else 1)", "g_nfix = g_nfix + (1 if result[0] else 0)"]),
+        "self.__scan_from_stdin": FSH + "__scan_from_stdin",
+    },
+    ensures=[
+        # every file is processed exactly once, in order (continue-on-error never skips a file)
+        f"implies(not use_standard_in, len(g_succ) == old(len({FILES})) and len(g_fix) == old(len({FILES})))",
+        # did_fail_any_file  <=>  some file did not succeed   (an error is never masked by later files)
+        "implies(not use_standard_in, result[1] == (g_nfail > 0))",
+        "implies(use_standard_in, result[1] == (not g_stdin_ok))",
+        # did_fix_any_file  <=>  some file was fixed
+        "implies(not use_standard_in, result[0] == (g_nfix > 0))",
+        "implies(use_standard_in, result[0] == False)",
+        # "Fixed: f" is printed  <=>  the fixer reported f as fixed
+        f"forall(lambda j: implies(g_fix[j], old({FILES}[j]) in g_announced), 0, len(g_fix))",
+        "forall_val(lambda x: implies(x in g_announced, x in g_fixflag and g_fixflag[x]))",
+        "implies(args.primary_subparser != 'fix', len(g_announced) == 0)",
+        MONO,
+    ],
+    xensures={"BaseException": [MONO]},
+    raises=[Raises("SystemExit", code=SYSERR), Raises("BadTokenizationError", when="not args.continue_on_error"),
+            Raises("OSError"), Raises("UnicodeError"), Raises("AssertionError"), Raises("ValueError")],
+    modifies=["*", "__continue_on_error", "g_stdin_ok", "number_of_scan_failures"],
+    loops={0: Loop(index="idx", frozen_iter="files_to_scan is the list built by ApplicationFileScanner.determine_files_to_scan; it is "
+                   "passed only to process_files_to_scan and never stored (structural obligation C15::files_list_not_aliased)",
+                   invariant=[
+        "len(g_succ) == idx and len(g_fix) == idx",
+        "did_fail_any_file == (g_nfail > 0)", "g_nfail >= 0", "g_nfix >= 0",
+        "did_fix_any_file == (g_nfix > 0)",
+        f"forall(lambda j: implies(g_fix[j], old({FILES}[j]) in g_announced), 0, idx)",
+        "forall_val(lambda x: implies(x in g_announced, x in g_fixflag and g_fixflag[x]))",
+        f"forall(lambda k: old({FILES}[k]) not in g_fixflag, idx, old(len({FILES})))",
+        "implies(not in_fix_mode, len(g_announced) == 0)",
+        f"scheme_ok({SCHEME})", "self.__continue_on_error == args.continue_on_error", MONO, "self.__plugins is old(self.__plugins)",
+    ])},
+))
+
+register(Contract(
+    key=FSH + "__scan_from_stdin", properties=["C15", "C10", "C16", "C18"],
+    ghost={"g_stdin_ok": "bool", "g_files": "Set[str]"},
+    requires=[f"scheme_ok({SCHEME})", "not g_stdin_ok"],
+    types={"args": "Namespace", "outfile": "TempFile"},
+    calls={"self.__scan_specific_file": (FSH + "__scan_specific_file", ["g_stdin_ok = result"]),
+           "outfile.write": "TempFile.write"},
+    ensures=["len(g_files) == old(len(g_files))",       # C10/C15: the spool file is removed on every normal exit
+             "result == g_stdin_ok", MONO],             # the outcome of the scan of the spooled input is handed back
+    xensures={"BaseException": ["len(g_files) == old(len(g_files))", MONO]},  # ... and on every exceptional exit
+    raises=[Raises("SystemExit", code=SYSERR), Raises("BadTokenizationError", when="not self.__continue_on_error"),
+            Raises("UnicodeError"), Raises("ValueError")],
+    modifies=["*", "g_stdin_ok", "g_files.$dict", "number_of_scan_failures"],
+))
+
+FIX_RAISES = [Raises("BadPluginError"), Raises("BadPluginFixError"), Raises("BadTokenizationError"), Raises("OSError"),
+              Raises("UnicodeError"), Raises("AssertionError")]
+
+register(Contract(
+    key=FSH + "__fix_specific_file", properties=["C15", "C10", "C18"],
+    ghost={"g_done": "bool", "g_ret": "bool"},
+    requires=[f"scheme_ok({SCHEME})", "not g_done"],
+    calls={"self.__process_file_fix": (FSH + "__process_file_fix", ["g_done = True", "g_ret = result"])},
+    ensures=["result[1] == g_done",                      # did_succeed <=> the fix of this file ran to completion
+             "implies(result[1], result[0] == g_ret)",   # did_fix_file is what the fixer reported
+             "implies(not result[1], not result[0])",    # a file whose fix failed is never reported as fixed
+             MONO],
+    xensures={"BaseException": [MONO]},
+    raises=[Raises("SystemExit", code=SYSERR), Raises("BadTokenizationError", when="not self.__continue_on_error"),
+            Raises("OSError"), Raises("UnicodeError"), Raises("AssertionError")],
+    modifies=["*", "number_of_scan_failures"],
+))
+
+register(Assumed(
+    key=FSH + "__process_file_fix", returns="bool", raises=FIX_RAISES, modifies=["*", "number_of_scan_failures"],
+    ensures=[MONO], xensures={"BaseException": [MONO]},
+    why="TEMPORARY until the fix-level scheduler contracts (C09/C10) are in place",
+))
+
+register(Contract(
+    key=FSH + "__scan_file", properties=["C15", "C07", "C14"],
+    ghost={"calls": "List[Any]", "g_ctx": "PluginScanContext", "g_tokens": "List[MarkdownToken]"},
+    calls={
+        "self.__plugins.starting_new_file": (PM + "starting_new_file", ["calls.append(('start', file_being_started))", "g_ctx = result"]),
+        "self.__tokenizer.transform_from_provider": (TM + "transform_from_provider", ["g_tokens = result"]),
+        "context.report_on_triggered_rules": (PSC + "report_on_triggered_rules", ["calls.append(('report', self))"]),
+        "self.__process_file_scan": FSH + "__process_file_scan",
+    },
+    requires=[f"{SP_LINES} is not calls"],
+    ensures=[
+        # C14: start, [pragmas], every token of the parser's stream for THIS provider in order, every line, done, report
+        "calls[old(len(calls))] == ('start', next_file_name)",
+        f"len(calls) == old(len(calls)) + 1 + {NP.replace(TOKS, 'g_tokens')} + {NT.replace(TOKS, 'g_tokens')} + len({SP_LINES}) + 1 + 1",
+        f"forall(lambda k: calls[old(len(calls)) + 1 + {NP.replace(TOKS, 'g_tokens')} + k] == ('tok', g_ctx, g_tokens[k]), 0, {NT.replace(TOKS, 'g_tokens')})",
+        "calls[len(calls) - 1] == ('report', g_ctx)",
+        f"calls[len(calls) - 2] == ('done', g_ctx, len({SP_LINES}) + 1)",
+        f"forall(lambda k: calls[len(calls) - 2 - len({SP_LINES}) + k] == ('line', g_ctx, k + 1, {SP_LINES}[k], k + 1 >= len({SP_LINES})), 0, len({SP_LINES}))",
+        MONO,
+    ],
+    # C07: on EVERY exit after the file was started, the collected failures are reported exactly once
+    xensures={"Exception": ["implies(len(calls) > old(len(calls)) + 1, calls[len(calls) - 1] == ('report', g_ctx))", MONO]},
+    raises=[Raises("BadPluginError"), Raises("BadTokenizationError")],
+    modifies=["*", "g_ctx", "g_tokens", "calls.$list", "number_of_scan_failures"],
 ))
